@@ -125,4 +125,25 @@ PROPS = {
         ],
         rule="det mode: owner (pre-fill/pre-drain to offsets B-2..B+1 of the 32-slot block, then push/pop/is_empty, then keeps pushing until all stealers are done, then Drop) x 1-4 stealers (raw mode: pop/bulk_pop/is_empty on Arc<Queue>; local mode: steal_into their own Local, pop of their own queue, Drop); seeded random schedules with stickiness over every atomic access; non-trivial = at least one failed compare-exchange on a head word; distinct = SHA-1 of the canonical trace",
     ),
+    "C11": dict(
+        lean_props=["MayVerif.Props.C11"],
+        families=[
+            dict(mode="det", name="condvar", quick=700, thorough=20000, nontrivial=r"sync\.condvar\.to_wake@0 q\.pop 0 0 SyncBlocker"),
+            dict(mode="det", name="barrier", quick=300, thorough=6000, nontrivial=r"sync\.condvar\.to_wake@0 q\.pop 0 0 SyncBlocker"),
+            dict(mode="det", name="waitgroup", quick=300, thorough=6000, nontrivial=r"sync\.condvar\.to_wake@0 q\.push SyncBlocker"),
+        ],
+        trusted_base=TB_COMMON + [
+            "ThreadPark is replaced by the controller's virtual token in det mode; a time-out is a schedule choice (only while the token is not set)",
+            "crossbeam SegQueue (the condvar's waiter queue) and may_queue::mpsc::Queue (the mutex's) are atomic FIFOs at this layer",
+            "Condvar theorems are over the atomic Mutex spec (C05); the replay runs the Condvar model in lock-step with the C05 Mutex model and checks the spec bit at every lock/unlock boundary",
+            "Barrier / WaitGroup models are the programs of barrier.rs / wait_group.rs over the Mutex and Condvar SPECS (locked regions atomic, notify_all = epoch); their replay compares the API boundary only (call/ret, leader flags, return order) plus the arrival's lock grant; the internals are tied by the condvar family",
+        ],
+        assumptions=[
+            "fair scheduling for the no-stranded-waiter theorem (quiescence form)",
+            "coroutine actors and cancellation (Env.cancel, the w9unlock path) are in the model and the theorems but not exercised by the det-mode (thread) scenarios",
+            "one mutex per condvar (the two-mutex panic of verify() is not modelled)",
+            "Barrier generation_id is an unbounded Nat in the model (the code wraps at 2^64)",
+        ],
+        rule="det mode: 2-5 threads; consumers wait / wait_while for a permit, bystanders wait_timeout once (virtual time-outs; woken without time-out they re-notify themselves, after a time-out the condvar must), producers add one permit per consumer and notify_one (under or after the lock) / notify_all, extra notify_one / notify_all without the lock; barrier: n = 1-5 threads x 1-4 rounds on one Barrier(n); waitgroup: 2-5 threads with 1-2 handles each, clone/drop/wait; seeded random schedules; non-trivial = a notifier popped a waiter's blocker (condvar, barrier) / a wait blocked (waitgroup); distinct = SHA-1 of the canonical trace",
+    ),
 }
